@@ -1,6 +1,6 @@
 (* C01 — lemmas about ModelLower.v *)
 From Coq Require Import ZArith List Bool Lia Permutation Sorted.
-From V.C01 Require Import ModelLower.
+From V.C01 Require Import ModelLower ProofsCmp.
 Import ListNotations.
 Open Scope Z_scope.
 
@@ -16,66 +16,46 @@ Qed.
 Lemma str_eqb_refl : forall a, str_eqb a a = true.
 Proof. intro a. apply str_eqb_eq. reflexivity. Qed.
 
-Lemma str_ltb_irrefl : forall a, str_ltb a a = false.
-Proof. induction a as [|x a IH]; simpl; auto. rewrite Z.ltb_irrefl. exact IH. Qed.
-
-Lemma str_ltb_trans : forall a b c, str_ltb a b = true -> str_ltb b c = true -> str_ltb a c = true.
-Proof.
-  induction a as [|x a IH]; destruct b as [|y b]; destruct c as [|z c]; simpl; intros H1 H2;
-    try congruence; auto.
-  destruct (x <? y) eqn:Exy; destruct (y <? z) eqn:Eyz; destruct (x <? z) eqn:Exz; auto;
-    destruct (y <? x) eqn:Eyx; destruct (z <? y) eqn:Ezy; destruct (z <? x) eqn:Ezx;
-    try congruence; try lia.
-  eapply IH; eauto.
-Qed.
-
-Lemma str_trichotomy : forall a b, str_ltb a b = true \/ a = b \/ str_ltb b a = true.
-Proof.
-  induction a as [|x a IH]; destruct b as [|y b]; simpl; auto.
-  destruct (x <? y) eqn:Exy; auto. destruct (y <? x) eqn:Eyx; auto.
-  assert (x = y) by lia. subst.
-  destruct (IH b) as [H | [H | H]]; auto. subst; auto.
-Qed.
-
-(* ---------- key order ---------------------------------------------------------------- *)
-
-Lemma key_ltb_irrefl : forall k, key_ltb k k = false.
-Proof. intros [[|] s]; unfold key_ltb; simpl; apply str_ltb_irrefl. Qed.
-
-Lemma key_ltb_trans : forall a b c, key_ltb a b = true -> key_ltb b c = true -> key_ltb a c = true.
-Proof.
-  intros [[|] a] [[|] b] [[|] c]; unfold key_ltb; simpl; intros; try congruence;
-    eauto using str_ltb_trans.
-Qed.
-
-Lemma key_trichotomy : forall a b, key_ltb a b = true \/ a = b \/ key_ltb b a = true.
-Proof.
-  intros [[|] a] [[|] b]; unfold key_ltb; simpl; auto;
-    destruct (str_trichotomy a b) as [H | [H | H]]; subst; auto.
-Qed.
-
-Lemma var_ltb_key : forall a b, var_ltb a b = key_ltb (var_key a) (var_key b).
-Proof. intros. unfold var_ltb, compare_var. destruct (key_ltb _ _); reflexivity. Qed.
+(* ---------- the comparator: instance of ProofsCmp for the generated key_spec ------------ *)
 
 Definition vlt (a b : var) : Prop := var_ltb a b = true.
+Definition var_key (v : var) : list Z := v_name v.
+
+Lemma var_ltb_lex : forall a b, var_ltb a b = true <-> lex_cmp key_spec a b = Lt.
+Proof.
+  intros. unfold var_ltb, compare_var.
+  destruct (lex_cmp key_spec a b); split; intro H; try reflexivity; try discriminate H;
+    vm_compute in H; discriminate H.
+Qed.
+
+(* side conditions on the generated key: checked by computation, they fail to compile if the
+   source stops using the raw name as a component / `not droppable` as first component *)
+Lemma key_spec_has_name : has_comp CName key_spec = true.
+Proof. reflexivity. Qed.
+
+Lemma key_spec_notdrop_first : exists spec, key_spec = CNotDrop :: spec.
+Proof. eexists. reflexivity. Qed.
 
 Lemma vlt_irrefl : forall a, ~ vlt a a.
-Proof. intros a H. unfold vlt in H. rewrite var_ltb_key, key_ltb_irrefl in H. discriminate. Qed.
+Proof. intros a H. apply var_ltb_lex in H. rewrite lex_refl in H. discriminate. Qed.
 
 Lemma vlt_trans : forall a b c, vlt a b -> vlt b c -> vlt a c.
-Proof. unfold vlt. intros a b c. rewrite !var_ltb_key. apply key_ltb_trans. Qed.
+Proof. unfold vlt. intros a b c. rewrite !var_ltb_lex. apply lex_trans. Qed.
 
 Lemma vlt_total : forall a b, vlt a b \/ var_key a = var_key b \/ vlt b a.
-Proof. unfold vlt. intros. rewrite !var_ltb_key. apply key_trichotomy. Qed.
+Proof.
+  intros a b. unfold vlt. rewrite !var_ltb_lex. rewrite (lex_sym key_spec a b).
+  destruct (lex_cmp key_spec a b) eqn:E; simpl; auto.
+  right; left. apply (lex_eq_name key_spec); auto.
+Qed.
 
-(* compare_var is a total order on keys: exactly one of <, =, > *)
+(* compare_var is antisymmetric on distinct names: exactly one of <, > *)
 Lemma compare_var_antisym : forall a b, var_key a <> var_key b ->
   compare_var a b = - compare_var b a.
 Proof.
-  intros a b Hne. unfold compare_var.
-  destruct (key_ltb (var_key a) (var_key b)) eqn:E1; destruct (key_ltb (var_key b) (var_key a)) eqn:E2; auto.
-  - pose proof (key_ltb_trans _ _ _ E1 E2) as H. rewrite key_ltb_irrefl in H. discriminate.
-  - destruct (key_trichotomy (var_key a) (var_key b)) as [H | [H | H]]; congruence.
+  intros a b Hne. unfold compare_var. rewrite (lex_sym key_spec a b).
+  destruct (lex_cmp key_spec a b) eqn:E; simpl; auto.
+  exfalso. apply Hne. apply (lex_eq_name key_spec); auto.
 Qed.
 
 (* ---------- sort_vars ---------------------------------------------------------------- *)
@@ -93,7 +73,7 @@ Proof.
   eapply perm_trans; [apply insert_var_perm | apply perm_skip, IH].
 Qed.
 
-Definition keys (l : list var) : list key := map var_key l.
+Definition keys (l : list var) : list (list Z) := map var_key l.
 
 Lemma insert_var_sorted : forall x l,
   StronglySorted vlt l -> ~ In (var_key x) (keys l) -> StronglySorted vlt (insert_var x l).
@@ -162,8 +142,9 @@ Qed.
 (* droppable places first, then the non-droppable ones *)
 Lemma vlt_nondrop : forall a b, vlt a b -> v_drop a = false -> v_drop b = false.
 Proof.
-  unfold vlt. intros a b H Ha. rewrite var_ltb_key in H. unfold key_ltb, var_key in H. simpl in H.
-  rewrite Ha in H. simpl in H. destruct (v_drop b); simpl in H; auto; discriminate.
+  unfold vlt. intros a b H Ha. apply var_ltb_lex in H.
+  destruct key_spec_notdrop_first as [spec Hs]. rewrite Hs in H.
+  eapply lex_notdrop_first; eauto.
 Qed.
 
 Lemma filter_all_false : forall (f : var -> bool) l, Forall (fun v => f v = false) l -> filter f l = [].
@@ -245,12 +226,7 @@ Proof.
 Qed.
 
 Lemma names_nodup_keys : forall r, NoDup (map v_name r) -> NoDup (keys r).
-Proof.
-  induction r as [|v r IH]; simpl; intro H; [constructor|]. inversion H; subst.
-  constructor; auto. intro Hin. apply H2. unfold keys in Hin.
-  apply in_map_iff in Hin as [z [Hz Hin]]. apply in_map_iff. exists z. split; auto.
-  unfold var_key in Hz. congruence.
-Qed.
+Proof. intros r H. exact H. Qed.
 
 Lemma names_nodup_vars : forall r, NoDup (map v_name r) -> NoDup r.
 Proof. intros r H. eapply NoDup_map_inv; eauto. Qed.
